@@ -158,7 +158,10 @@ class C13(Scenario):
                         ]
                     )
                     add(n, op)
-                    # its result is not tracked: only what it does to the pool matters
+                    # its result is not tracked: only what it does to the pool matters; the
+                    # expressions that contain the operand must still round-trip
+                    if rng.random() < 0.6:
+                        add(n, ["rt_anc", None, a, rng.choice(["pickle", "evalrepr"]), rng.randint(1, 3)])
             elif k == "formop" and pl:
                 # form arithmetic on pool members that already have a history (hashed,
                 # compared, signed); the results join the pool and meet history-free twins
@@ -402,7 +405,7 @@ class C13(Scenario):
                         probes["received_under_other_salt"] += 1
                     if units[ui]["k"] == "chk" and any(u2["k"] == "crash" and u2["n"] == node for u2 in units[:ui]):
                         probes["reload_after_restart"] += 1
-            if name in ("pairs", "triples", "roundtrip", "expecteq"):
+            if name in ("pairs", "triples", "roundtrip", "expecteq", "rt_anc"):
                 v = r.get("ok")
                 if not isinstance(v, dict):
                     continue
